@@ -14,7 +14,13 @@ import (
 	"encoding/json"
 	"fmt"
 	"os"
+	"reflect"
+	"regexp"
+	"sort"
 	"strings"
+
+	"github.com/robfig/soy/ast"
+	"github.com/robfig/soy/template"
 
 	"github.com/robfig/soy"
 	"github.com/robfig/soy/data"
@@ -72,6 +78,7 @@ func c02Bundle(e *env, files []srcFile, entry string, dataSets []data.Map, feats
 		e.res.Fail(hx.Violation{Kind: "oracle", What: "a generated valid bundle is rejected by the compiler", Case: progCase{Files: files, Template: entry}, Observed: err.Error()}, "")
 		return
 	}
+	c02Names(e, files, reg)
 	tofu := soyhtml.NewTofu(reg)
 	ids := newIDTable()
 	c02Reg++
@@ -249,4 +256,85 @@ func atoiHash(s string) int {
 		n = n*10 + int(c-'0')
 	}
 	return n
+}
+
+var (
+	c02NsRe    = regexp.MustCompile(`\{namespace\s+([\w.]+)`)
+	c02AliasRe = regexp.MustCompile(`\{alias\s+([\w.]+)\s*\}`)
+	c02CallRe  = regexp.MustCompile(`\{call\s+(?:name="([^"]+)"|([.\w]+))`)
+)
+
+func c02WalkAll(n ast.Node, f func(ast.Node)) {
+	if n == nil {
+		return
+	}
+	if v := reflect.ValueOf(n); v.Kind() == reflect.Ptr && v.IsNil() {
+		return
+	}
+	f(n)
+	if p, ok := n.(ast.ParentNode); ok {
+		for _, c := range p.Children() {
+			c02WalkAll(c, f)
+		}
+	}
+}
+
+// c02Names ties Model/Parser.v resolve_name (about which call_name_resolution is proved) to parse.go: for every
+// file, the names written in its {call} tags (read off the generated source text), resolved by the extracted model
+// against the file's namespace and aliases, must be the names the CallNodes of the parsed file carry.
+func c02Names(e *env, files []srcFile, reg *template.Registry) {
+	for _, f := range files {
+		ns := ""
+		if m := c02NsRe.FindStringSubmatch(f.Text); m != nil {
+			ns = m[1]
+		}
+		var als []string
+		for _, m := range c02AliasRe.FindAllStringSubmatch(f.Text, -1) {
+			full := m[1]
+			als = append(als, hx.H(full[strings.LastIndex(full, ".")+1:])+"="+hx.H(full))
+		}
+		alf := "-"
+		if len(als) > 0 {
+			alf = strings.Join(als, ",")
+		}
+		var want []string
+		for _, m := range c02CallRe.FindAllStringSubmatch(f.Text, -1) {
+			written := m[1]
+			if written == "" {
+				written = m[2]
+			}
+			r := e.m.Call("resolve_name", hx.H(ns), alf, hx.H(written))
+			if len(r) != 1 {
+				e.res.Fail(hx.Violation{Kind: "mismatch", What: "model resolve_name failed", Case: progCase{Files: files}, Observed: fmt.Sprint(r)}, "")
+				return
+			}
+			want = append(want, hx.UnH(r[0]))
+			switch {
+			case written[0] == '.':
+				e.res.Histogram["names:relative"]++
+			case hx.UnH(r[0]) != written:
+				e.res.Histogram["names:aliased"]++
+			default:
+				e.res.Histogram["names:fully-qualified"]++
+			}
+		}
+		var got []string
+		for _, sf := range reg.SoyFiles {
+			if sf.Name != f.Name {
+				continue
+			}
+			for _, n := range sf.Body {
+				c02WalkAll(n, func(n ast.Node) {
+					if c, ok := n.(*ast.CallNode); ok {
+						got = append(got, c.Name)
+					}
+				})
+			}
+		}
+		sort.Strings(want)
+		sort.Strings(got)
+		if strings.Join(want, " ") != strings.Join(got, " ") {
+			e.res.Fail(hx.Violation{Kind: "mismatch", What: "call names of the parsed file differ from the model's resolution (Model/Parser.v resolve_name) of the written names", Case: progCase{Files: files}, Expected: strings.Join(want, " "), Observed: strings.Join(got, " ")}, "")
+		}
+	}
 }
